@@ -37,9 +37,12 @@ def main(prop, path, redrives=5):
         print("re-driven against the current tree: %s fails in %d of %d runs" % (check, again, redrives))
         if os.environ.get("VERIF_KEEP"):
             print("scratch kept:", work)
-        if hit or again:
+        # the verdict is about the CURRENT tree: the recorded behaviour only documents what an earlier build did
+        if again:
             print("VIOLATION property=%s replay=%s" % (prop, path))
             sys.exit(1)
+        if hit:
+            print("not reproduced on the current tree in %d re-drives (the recorded behaviour, produced by an earlier build or by a different scheduler choice, does violate %s)" % (redrives, check))
         sys.exit(0)
     finally:
         if not os.environ.get("VERIF_KEEP"):
